@@ -55,7 +55,7 @@ def known_keys(pid):
 def run(pid, repo, run_one):
     t0 = time.time()
     code0, program = run_one(pid, "thorough", repo)
-    ev_path = os.path.join(VERIF, "evidence", pid + ".json")
+    ev_path = os.path.join(os.environ.get("VERIF_OUT_DIR", VERIF), "evidence", pid + ".json")
     with open(ev_path) as fh:
         ev = json.load(fh)
     base_keys, base_und, _ = silent_run(pid, program, repo)
